@@ -1,43 +1,19 @@
-import AnonModel.Props.C04Defs
-import AnonModel.Lemmas.ProverMaps
-import AnonModel.Props.C08
+import AnonModel.Lemmas.ProverChecks
 import AnonModel.Props.C13
 /-!
 # C04 — honest issue-hold-present-verify flows always verify
 
 `C04_legacy`: a presentation that `createPresentation` builds from a selection meeting `meetsDemands`
-(see `Props/C04Defs.lean`) is accepted by `verifyLegacy`. Proved check by check: one `C04_check_…`
-lemma per check of the verifier.
+(see `Props/C04Defs.lean`) is accepted by `verifyLegacy`; `C04_w3c`: likewise for
+`createPresentationW3C`, `meetsDemandsW3C`, `verifyW3C`. Proved check by check: one `C04_check_…`
+lemma per check of the verifier (helper lemmas: `Lemmas/Prover.lean`, `Lemmas/ProverMaps.lean`,
+`Lemmas/ProverW3C.lean`, `Lemmas/ProverChecks.lean`).
 -/
 namespace AnonModel.Prover
 open AnonModel.Verifier AnonModel.IdealCL AnonModel.Names
 open AnonModel.Query (Query)
 
-/-- the conjuncts of `meetsDemands`, unpacked -/
-structure Meets (ctx : Ctx) (pc : PCtx) (r : Request) (sel : List Selected)
-    (sa : List (String × String)) : Prop where
-  schemas : schemasAgree ctx pc (usedOf sel) = true
-  credDefs : credDefsAgree ctx (usedOf sel) = true
-  values : valuesSigned (usedOf sel) = true
-  attrsNodup : requestAttrsNodup r = true
-  names : namesPresent r = true
-  attrsServed : attrsServed r (usedOf sel) sa = true
-  predsServed : predsServed r (usedOf sel) = true
-  saRequested : selfAttestedRequested r sa = true
-  unrevealed : unrevealedHeld ctx r (usedOf sel) = true
-  tags : tagsNotMixed r = true
-  attrRestr : attrRestrictionsMet ctx r (usedOf sel) sa = true
-  predRestr : predRestrictionsMet ctx r (usedOf sel) = true
-  intervals : intervalsMet ctx r (usedOf sel) = true
-  registries : registriesSupplied ctx (usedOf sel) = true
-  nonRev : nonRevProofsOk ctx r (usedOf sel) = true
-  lists : listsComplete ctx = true
-
-theorem meets_of {ctx : Ctx} {pc : PCtx} {r : Request} {sel : List Selected}
-    {sa : List (String × String)} (h : meetsDemands ctx pc r sel sa = true) : Meets ctx pc r sel sa := by
-  simp only [meetsDemands, Bool.and_eq_true] at h
-  obtain ⟨⟨⟨⟨⟨⟨⟨⟨⟨⟨⟨⟨⟨⟨⟨h1, h2⟩, h3⟩, h4⟩, h5⟩, h6⟩, h7⟩, h8⟩, h9⟩, h10⟩, h11⟩, h12⟩, h13⟩, h14⟩, h15⟩, h16⟩ := h
-  exact ⟨h1, h2, h3, h4, h5, h6, h7, h8, h9, h10, h11, h12, h13, h14, h15, h16⟩
+/-! ## legacy format -/
 
 variable {ctx : Ctx} {pc : PCtx} {r : Request} {sel : List Selected} {sa : List (String × String)}
   {holder session uid0 : Nat} {p : Presentation}
@@ -92,30 +68,6 @@ theorem C04_check_uniqueReferents (h : createPresentation pc r sel sa holder ses
       obtain ⟨s, i, _, _, _, hs, ht, _⟩ := ch.mem_groups hk
       have := (sel_entry_unique ch.valid (mem_zipIdx_iff.mpr hs) (mem_zipIdx_iff.mpr hs') ht hf).2
       cases this
-
-theorem mem_keys_of_lookup {β : Type} {l : List (String × β)} {k : String} {b : β}
-    (h : l.lookup k = some b) : k ∈ l.map Prod.fst :=
-  List.mem_map.mpr ⟨(k, b), mem_of_lookup h, rfl⟩
-
-/-- the request's entry for a referent is what `lookup` finds (the referents are pairwise different) -/
-theorem Meets.lookup_attr (m : Meets ctx pc r sel sa) {kv : String × AttrInfo} (h : kv ∈ r.attrs) :
-    r.attrs.lookup kv.1 = some kv.2 :=
-  lookup_of_mem ((noDup_iff _).mp m.attrsNodup) (k := kv.1) (b := kv.2) h
-
-/-- an unrevealed referent is requested and the serving credential's schema has its names -/
-theorem Meets.unrevealed_held (m : Meets ctx pc r sel sa) {s : Selected} {i : Nat}
-    (hs : (usedOf sel)[i]? = some s) {k : String} (hk : (k, false) ∈ s.attrs) :
-    ∃ info sc, r.attrs.lookup k = some info ∧ ctx.schemas.lookup s.cred.schemaId = some sc ∧
-      ∀ n ∈ info.allNames, hasNorm sc.attrNames n = true := by
-  have := m.unrevealed
-  unfold unrevealedHeld at this
-  simp only [List.all_eq_true] at this
-  have := this s (List.mem_of_getElem? hs) (k, false) hk
-  simp only [Bool.false_or] at this
-  split at this
-  · rename_i info sc h1 h2
-    exact ⟨info, sc, h1, h2, by simpa using this⟩
-  · cases this
 
 /-- check 3: the presentation's referents are exactly the requested ones -/
 theorem C04_check_compareAttrs (hm : meetsDemands ctx pc r sel sa = true)
@@ -195,32 +147,6 @@ theorem C04_check_compareAttrs (hm : meetsDemands ctx pc r sel sa = true)
     obtain ⟨q, _, hl⟩ := mapM_some_mem hmp hks
     exact mem_keys_of_lookup hl
 
-/-- correctly issued: the value the credential carries for a name is the signed one, normalised -/
-theorem Meets.signed (m : Meets ctx pc r sel sa) {s : Selected} {i : Nat}
-    (hs : (usedOf sel)[i]? = some s) {n : String} {re : String × String}
-    (hc : credValue s.cred n = some re) :
-    s.cred.sym.attrs.lookup (commonView n) = some (Encode.normalizeEnc re.2) := by
-  obtain ⟨k, hk, hcv⟩ := credValue_some hc
-  have := m.values
-  unfold valuesSigned at this
-  simp only [List.all_eq_true] at this
-  have := this s (List.mem_of_getElem? hs) (k, re) hk
-  rw [← hcv]
-  simpa using this
-
-/-- a revealed value passes `verify_revealed_attribute_value` against the entry's sub-proof -/
-theorem revealedValueOk_of (m : Meets ctx pc r sel sa) {s : Selected} {i : Nat}
-    (hs : (usedOf sel)[i]? = some s) {sub : SymSub} {uid : Nat}
-    (hadd : addSubProof pc r s holder session uid = some sub) {n : String}
-    (hmr : MarkedRevealed r s.attrs n) {re : String × String} (hc : credValue s.cred n = some re) :
-    revealedValueOk n sub re.2 = true := by
-  obtain ⟨v, hv, hl⟩ := addSubProof_lookupNorm hadd hmr
-  rw [m.signed hs hc] at hv
-  cases hv
-  unfold revealedValueOk
-  rw [hl]
-  simp
-
 /-- check 4: revealed raw/encoded values agree with the sub-proofs -/
 theorem C04_check_revealedValuesOk (hm : meetsDemands ctx pc r sel sa = true)
     (h : createPresentation pc r sel sa holder session uid0 = some p) : revealedValuesOk r p = true := by
@@ -286,117 +212,6 @@ theorem C04_check_predicatesOk (h : createPresentation pc r sel sa holder sessio
 
 
 
-theorem servingAttr_some {used : List Selected} {ref : String} {s : Selected} {flag : Bool}
-    (h : servingAttr used ref = some (s, flag)) : ∃ i : Nat, used[i]? = some s ∧ (ref, flag) ∈ s.attrs := by
-  unfold servingAttr at h
-  obtain ⟨s', hs', hf⟩ := List.exists_of_findSome?_eq_some h
-  cases hl : s'.attrs.lookup ref with
-  | none => simp [hl] at hf
-  | some b =>
-    simp [hl] at hf
-    obtain ⟨rfl, rfl⟩ := hf
-    obtain ⟨i, hi⟩ := List.mem_iff_getElem?.mp hs'
-    exact ⟨i, hi, mem_of_lookup hl⟩
-
-theorem servingPred_some {used : List Selected} {ref : String} {s : Selected} {i : Nat}
-    (h : servingPred used ref = some (s, i)) : used[i]? = some s ∧ ref ∈ s.preds := by
-  unfold servingPred at h
-  exact ⟨mem_zipIdx_iff.mp (List.mem_of_find?_eq_some h), by simpa using List.find?_some h⟩
-
-/-- the restriction of an attribute referent, true of the serving credential, is accepted -/
-theorem attrRestrictionOk_of (ch : LegacyChar pc r sel sa holder session uid0 p) {ref : String}
-    {info : AttrInfo} {q : Query} (hl : r.attrs.lookup ref = some info)
-    (h : attrRestrictionMet ctx (usedOf sel) ref info q = true) :
-    attrRestrictionOk ctx p ref info q = true := by
-  unfold attrRestrictionMet at h
-  split at h
-  · cases h
-  · rename_i s flag hserv
-    obtain ⟨i, hs, hmem⟩ := servingAttr_some hserv
-    split at h
-    · rename_i f vals hf hvals
-      have hid := ch.identifier_of hs
-      unfold attrRestrictionOk
-      unfold attrValueMap at hvals
-      cases flag with
-      | false =>
-        obtain ⟨hu, hr, hg⟩ := ch.lookup_unrevealed hs hmem
-        have hidx : attrIdentifierIdx p ref = some i := by simp [attrIdentifierIdx, hu]
-        simp only [hidx, hid, hf]
-        cases hn : info.name with
-        | some name =>
-          simp only [hn] at hvals ⊢
-          cases hvals
-          simpa [hr] using h
-        | none =>
-          simp only [hn] at hvals ⊢
-          cases hns : info.names with
-          | none => simp [hns] at hvals
-          | some names =>
-            simp only [hns] at hvals ⊢
-            cases hvals
-            have hk : (keys p.unrevealed).contains ref = true := by
-              simp only [List.contains_iff_mem, keys]
-              exact mem_keys_of_lookup hu
-            simp only [hg, hk]
-            simpa using h
-      | true =>
-        cases hn : info.name with
-        | some name =>
-          obtain ⟨re, hc, hr, hu, hg⟩ := ch.lookup_revealed hs hmem hl hn
-          have hidx : attrIdentifierIdx p ref = some i := by simp [attrIdentifierIdx, hu, hg, hr]
-          simp only [hidx, hid, hf]
-          simp only [hn] at hvals ⊢
-          cases hvals
-          simpa [hr, hc] using h
-        | none =>
-          simp only [hn] at hvals
-          cases hns : info.names with
-          | none => simp [hns] at hvals
-          | some names =>
-            simp only [hns] at hvals
-            cases hvals
-            obtain ⟨vals, hv, hg, hu, hr⟩ := ch.lookup_group hs hmem hl hn hns
-            have hidx : attrIdentifierIdx p ref = some i := by simp [attrIdentifierIdx, hu, hg]
-            simp only [hidx, hid, hf, hg]
-            have hmap : names.map (fun n => (n, (Option.bind (some ({ idx := i, values := vals } : GroupInfo))
-                  (fun g => g.values.lookup n)).map (·.1))) =
-                names.map (fun n => (n, if true = true then (credValue s.cred n).map (·.1) else none)) := by
-              apply List.map_congr_left
-              intro n hn'
-              have := mapM_pair_lookup hv n (List.mem_eraseDups.mpr hn')
-              simp [this]
-            simp only [Option.isNone_some, Bool.false_and, Bool.false_eq_true, if_false]
-            rw [hmap]
-            exact h
-    · cases h
-
-/-- the predicate loop of `verify_requested_restrictions` succeeds if every step does -/
-theorem restrictions_go_ok (ctx : Ctx) (r : Request) (p : Presentation) :
-    ∀ (l : List (String × PredInfo)),
-    (∀ kv ∈ l, match kv.2.restrictions with
-      | none => True
-      | some q => ∃ pi id f, p.predicates.lookup kv.1 = some pi ∧ p.identifiers[pi]? = some id ∧
-          gatherFilter ctx id = some f ∧
-          Query.eval Ident.isLegacyDid (predValueMap r p kv.2 pi) f q = true) →
-    restrictionsOutcome.go ctx r p l = .ok true := by
-  intro l
-  induction l with
-  | nil => intro _; rfl
-  | cons kv l ih =>
-    intro h
-    obtain ⟨ref, info⟩ := kv
-    have h0 := h (ref, info) List.mem_cons_self
-    have ih' := ih (fun kv hkv => h kv (List.mem_cons_of_mem _ hkv))
-    unfold restrictionsOutcome.go
-    cases hr : info.restrictions with
-    | none => simpa [hr] using ih'
-    | some q =>
-      simp only [hr] at h0
-      obtain ⟨pi, id, f, h1, h2, h3, h4⟩ := h0
-      simp only [h1, h2, h3, h4, if_true]
-      exact ih'
-
 /-- check 7: restrictions -/
 theorem C04_check_restrictions (hm : meetsDemands ctx pc r sel sa = true)
     (h : createPresentation pc r sel sa holder session uid0 = some p) :
@@ -456,194 +271,6 @@ theorem C04_check_restrictions (hm : meetsDemands ctx pc r sel sa = true)
         assumption
 
 
-theorem mapM_eq_some_map {α β : Type} {f : α → Option β} {g : α → β} :
-    ∀ {l : List α}, (∀ a ∈ l, f a = some (g a)) → l.mapM f = some (l.map g) := by
-  intro l
-  induction l with
-  | nil => intro _; rfl
-  | cons a l ih =>
-    intro h
-    rw [List.mapM_cons, h a List.mem_cons_self, ih (fun b hb => h b (List.mem_cons_of_mem _ hb))]
-    rfl
-
-/-- the conjuncts of `meetsDemands` that the CL-level checks need, over any list of used entries
-(shared by both formats) -/
-structure MeetsCL (ctx : Ctx) (pc : PCtx) (r : Request) (used : List Selected) : Prop where
-  schemas : schemasAgree ctx pc used = true
-  credDefs : credDefsAgree ctx used = true
-  registries : registriesSupplied ctx used = true
-  nonRev : nonRevProofsOk ctx r used = true
-
-theorem Meets.cl (m : Meets ctx pc r sel sa) : MeetsCL ctx pc r (usedOf sel) :=
-  ⟨m.schemas, m.credDefs, m.registries, m.nonRev⟩
-
-/-- the verifier's schema of a used credential, with the same normalised names as the prover's -/
-theorem MeetsCL.schema_of {used : List Selected} (m : MeetsCL ctx pc r used) {s : Selected}
-    (hs : s ∈ used) :
-    ∃ a sc, pc.schemas.lookup s.cred.schemaId = some a ∧ ctx.schemas.lookup s.cred.schemaId = some sc ∧
-      ∀ x, x ∈ sc.attrNames.map commonView ↔ x ∈ a.map commonView := by
-  have := m.schemas
-  unfold schemasAgree at this
-  simp only [List.all_eq_true] at this
-  have := this s hs
-  split at this
-  · rename_i a sc h1 h2
-    refine ⟨a, sc, h1, h2, ?_⟩
-    unfold sameSet at this
-    simp only [Bool.and_eq_true, List.all_eq_true, List.contains_iff_mem] at this
-    exact fun x => ⟨this.1 x, this.2 x⟩
-  · cases this
-
-theorem MeetsCL.credDef_of {used : List Selected} (m : MeetsCL ctx pc r used) {s : Selected}
-    (hs : s ∈ used) :
-    ∃ cd, ctx.credDefs.lookup s.cred.credDefId = some cd ∧ cd.key = s.cred.sym.key := by
-  have := m.credDefs
-  unfold credDefsAgree at this
-  simp only [List.all_eq_true] at this
-  have := this s hs
-  split at this
-  · rename_i cd h1
-    exact ⟨cd, h1, by simpa using this⟩
-  · cases this
-
-/-- the `SubCtx` the verifier hands to the CL verifier for a used selection entry -/
-def subCtxOf (ctx : Ctx) (s : Selected) (sc : SchemaInfo) (cd : CredDefInfo) : SubCtx :=
-  { schemaAttrs := sc.attrNames.map commonView, key := cd.key, hasRevKey := cd.revocable,
-    regKey := (registryFor ctx s).map (·.1.regKey), acc := (registryFor ctx s).bind (·.2.acc) }
-
-theorem MeetsCL.registry_of {used : List Selected} (m : MeetsCL ctx pc r used) {s : Selected}
-    (hs : s ∈ used) :
-    revocationRegistry ctx (identOf s) =
-      some ((registryFor ctx s).map (·.1.regKey), (registryFor ctx s).bind (·.2.acc)) := by
-  have := m.registries
-  unfold registriesSupplied at this
-  simp only [List.all_eq_true] at this
-  have := this s hs
-  unfold revocationRegistry registryFor at *
-  simp only [identOf]
-  cases h1 : s.cred.revRegId with
-  | none => rfl
-  | some rid =>
-    cases h2 : s.timestamp with
-    | none => rfl
-    | some ts =>
-      simp only [h1, h2, Option.isSome_some, Bool.and_self, Bool.not_true, Bool.false_or] at this ⊢
-      cases h3 : ctx.revRegDefs with
-      | none => simp [h3] at this
-      | some defs =>
-        cases h4 : ctx.lists with
-        | none => simp [h3, h4] at this
-        | some ls =>
-          simp only [h3, h4] at this ⊢
-          cases h5 : defs.lookup rid with
-          | none => simp [h5] at this
-          | some d =>
-            cases h6 : findList ls rid ts with
-            | none => simp [h5, h6] at this
-            | some l => rfl
-
-/-- the attribute-side local intervals as the verifier collects them -/
-theorem attrLocals_of (ch : LegacyChar pc r sel sa holder session uid0 p) {s : Selected} {i : Nat}
-    (hs : (usedOf sel)[i]? = some s) : attrLocals r p i = some (verifierAttrLocals r s i) := by
-  unfold attrLocals verifierAttrLocals
-  simp only []
-  rw [ch.revealed_filter hs, ch.groups_filter hs]
-  apply mapM_eq_some_map
-  intro ref href
-  rcases List.mem_append.mp href with href | href
-  · obtain ⟨⟨k, info⟩, hk, e⟩ := List.mem_map.mp href
-    simp only at e; subst e
-    obtain ⟨rr, _, hk⟩ := List.mem_flatMap.mp hk
-    obtain ⟨_, ai, _, _, hl, _⟩ := mem_revOf hk
-    simp [hl]
-  · obtain ⟨⟨k, g⟩, hk, e⟩ := List.mem_map.mp href
-    simp only at e; subst e
-    obtain ⟨rr, _, hk⟩ := List.mem_flatMap.mp hk
-    obtain ⟨_, ai, _, _, hl, _⟩ := mem_grpOf hk
-    simp [hl]
-
-theorem predLocals_of (ch : LegacyChar pc r sel sa holder session uid0 p) {s : Selected} {i : Nat}
-    (hs : (usedOf sel)[i]? = some s) : predLocals r p i = some (verifierPredLocals r s) := by
-  unfold predLocals verifierPredLocals
-  simp only []
-  rw [ch.predicates_filter hs, List.map_map]
-  have : (Prod.fst ∘ fun ref => (ref, i)) = (id : String → String) := rfl
-  rw [this, List.map_id]
-  apply mapM_eq_some_map
-  intro ref href
-  obtain ⟨sub, _, hadd⟩ := ch.sub_of hs
-  obtain ⟨_, _, pinfos, _, _, _, hmp, _⟩ := addSubProof_some hadd
-  obtain ⟨q, _, hl⟩ := mapM_some_mem hmp href
-  simp [hl]
-
-/-- the sub-proof built for an entry only mentions attributes of the verifier's schema -/
-theorem addSubProofRequestOk_of {used : List Selected} (m : MeetsCL ctx pc r used) {s : Selected}
-    (hs : s ∈ used) {sub : SymSub} {uid : Nat}
-    (hadd : addSubProof pc r s holder session uid = some sub) {sc : SchemaInfo}
-    (hsc : ctx.schemas.lookup s.cred.schemaId = some sc) {cd : CredDefInfo} :
-    addSubProofRequestOk (subCtxOf ctx s sc cd) sub = true := by
-  obtain ⟨a, sc', ha, hsc', hsame⟩ := m.schema_of hs
-  rw [hsc] at hsc'; cases hsc'
-  obtain ⟨hnr, hnp⟩ := addSubProof_normal hadd
-  obtain ⟨a', ainfos, pinfos, ha', _, _, _, hb⟩ := addSubProof_some hadd
-  rw [ha] at ha'; cases ha'
-  obtain ⟨_, _, h3, h4, _, _, hrev, hpreds, _⟩ := buildSub_some hb
-  have hkeys := mapM_pair_keys hrev
-  unfold addSubProofRequestOk subCtxOf
-  simp only [Bool.and_eq_true, List.all_eq_true, List.contains_iff_mem]
-  constructor
-  · intro kv hkv
-    rw [hnr kv hkv, hsame]
-    have : kv.1 ∈ sub.revealed.map Prod.fst := List.mem_map_of_mem hkv
-    rw [hkeys] at this
-    obtain ⟨n1, hn1, e⟩ := List.mem_map.mp (mem_dedup.mp this)
-    rw [← e]; exact h3 n1 hn1
-  · intro pr hpr
-    rw [hnp pr hpr, hsame]
-    rw [hpreds] at hpr
-    obtain ⟨q, hq, e⟩ := List.mem_map.mp (mem_dedup.mp hpr)
-    rw [← e]; exact h4 q hq
-
-/-- the per-identifier loop body succeeds for the `i`-th used entry -/
-theorem subCtxFor_of (m : Meets ctx pc r sel sa) (ch : LegacyChar pc r sel sa holder session uid0 p)
-    {s : Selected} {i : Nat} (hs : (usedOf sel)[i]? = some s) :
-    ∃ sc cd, ctx.schemas.lookup s.cred.schemaId = some sc ∧
-      ctx.credDefs.lookup s.cred.credDefId = some cd ∧ cd.key = s.cred.sym.key ∧
-      subCtxFor ctx r p i (identOf s) = some (subCtxOf ctx s sc cd) := by
-  obtain ⟨a, sc, ha, hsc, hsame⟩ := m.cl.schema_of (List.mem_of_getElem? hs)
-  obtain ⟨cd, hcd, hkey⟩ := m.cl.credDef_of (List.mem_of_getElem? hs)
-  obtain ⟨sub, hsub, hadd⟩ := ch.sub_of hs
-  refine ⟨sc, cd, hsc, hcd, hkey, ?_⟩
-  have hint : Interval.checkLegacy cd.revocable (Interval.foldLocals (verifierAttrLocals r s i))
-      (Interval.foldLocals (verifierPredLocals r s)) r.nonRevoked s.cred.revRegId ctx.override
-      s.timestamp = true := by
-    have := m.intervals
-    unfold intervalsMet at this
-    simp only [List.all_eq_true] at this
-    have := this (s, i) (mem_zipIdx_iff.mpr hs)
-    simpa [hcd] using this
-  unfold subCtxFor
-  rw [attrLocals_of ch hs, predLocals_of ch hs]
-  simp only [identOf, hcd, hint, hsub, hsc, Bool.not_true, Bool.false_eq_true, if_false]
-  have hreg := m.cl.registry_of (List.mem_of_getElem? hs)
-  simp only [identOf] at hreg
-  rw [hreg]
-  simp only []
-  have := addSubProofRequestOk_of m.cl (List.mem_of_getElem? hs) hadd hsc (cd := cd)
-  unfold subCtxOf at this ⊢
-  rw [if_pos this]
-
-theorem mapM_exists_of {α β : Type} {f : α → Option β} : ∀ {l : List α},
-    (∀ a ∈ l, ∃ b, f a = some b) → ∃ r, l.mapM f = some r := by
-  intro l
-  induction l with
-  | nil => intro _; exact ⟨[], rfl⟩
-  | cons a l ih =>
-    intro h
-    obtain ⟨b, hb⟩ := h a List.mem_cons_self
-    obtain ⟨r, hr⟩ := ih (fun x hx => h x (List.mem_cons_of_mem _ hx))
-    exact ⟨b :: r, by rw [List.mapM_cons, hb, hr]; rfl⟩
-
 /-- check 9: interval checks and `add_sub_proof` succeed for every identifier; the contexts handed to
 the CL verifier are those of the used entries, in order -/
 theorem C04_check_subCtxs (hm : meetsDemands ctx pc r sel sa = true)
@@ -688,129 +315,6 @@ theorem C04_check_subCtxs (hm : meetsDemands ctx pc r sel sa = true)
     rw [hbody j (List.mem_range.mpr hlt) s hs, h4] at hf
     exact ⟨s, sc, cd, hs, h1, h2, h3, (Option.some.inj hf).symm⟩
 
-
-/-- all link-secret responses equal the first one -/
-def msAgree : List SymSub → Bool
-  | [] => true
-  | s :: rest => rest.all (fun t => t.ms == s.ms)
-
-/-- `verify` with the link-secret check named -/
-theorem verify_eq (ctxs : List SubCtx) (subs : List SymSub) (agg : SymAgg) (nonce : String) :
-    IdealCL.verify ctxs subs agg nonce true =
-      if ctxs.length ≠ subs.length then none
-      else if !(ctxs.zip subs).all (fun cs => paramsConsistent cs.2) then none
-      else if !msAgree subs then none
-      else some (agg.intact && decide (agg.nonce = nonce) &&
-        decide (agg.bound = (ctxs.zip subs).map (fun cs => (cs.2.uid, nrpChecked cs.1 cs.2))) &&
-        (ctxs.zip subs).all (fun cs => primaryOk cs.1 cs.2 && (!nrpChecked cs.1 cs.2 || nrpOk cs.1 cs.2))) := by
-  unfold IdealCL.verify
-  cases subs <;> simp only [msAgree, Bool.true_and] <;> rfl
-
-theorem msAgree_true {subs : List SymSub}
-    (hms : ∀ m, ∀ s ∈ subs, ∀ t ∈ subs, s.ms = m → t.ms = m) : msAgree subs = true := by
-  cases subs with
-  | nil => rfl
-  | cons s rest =>
-    simp only [msAgree, List.all_eq_true, beq_iff_eq]
-    intro t ht
-    exact hms s.ms s List.mem_cons_self t (List.mem_cons_of_mem _ ht) rfl
-
-/-- sufficient conditions for `ProofVerifier::verify` to return `Ok(true)` -/
-theorem verify_true {ctxs : List SubCtx} {subs : List SymSub} {agg : SymAgg} {nonce : String}
-    (hl : ctxs.length = subs.length)
-    (hpc : ∀ s ∈ subs, paramsConsistent s = true)
-    (hms : ∀ m, ∀ s ∈ subs, ∀ t ∈ subs, s.ms = m → t.ms = m)
-    (hint : agg.intact = true) (hn : agg.nonce = nonce)
-    (hb : agg.bound = subs.map (fun s => (s.uid, s.nrp.isSome)))
-    (hp : ∀ cs ∈ ctxs.zip subs, primaryOk cs.1 cs.2 = true ∧ nrpChecked cs.1 cs.2 = cs.2.nrp.isSome ∧
-      nrpOk cs.1 cs.2 = true) :
-    IdealCL.verify ctxs subs agg nonce true = some true := by
-  rw [verify_eq, if_neg (by simp [hl])]
-  have h1 : ((ctxs.zip subs).all (fun cs => paramsConsistent cs.2)) = true := by
-    simp only [List.all_eq_true]
-    intro cs hcs
-    exact hpc cs.2 (List.of_mem_zip hcs).2
-  rw [if_neg (by rw [h1]; simp), msAgree_true hms, if_neg (by simp)]
-  have h3 : agg.bound = (ctxs.zip subs).map (fun cs => (cs.2.uid, nrpChecked cs.1 cs.2)) := by
-    rw [hb]
-    have : (ctxs.zip subs).map (fun cs => (cs.2.uid, nrpChecked cs.1 cs.2)) =
-        (ctxs.zip subs).map (fun cs => (fun s : SymSub => (s.uid, s.nrp.isSome)) cs.2) := by
-      apply List.map_congr_left
-      intro cs hcs
-      rw [(hp cs hcs).2.1]
-    rw [this, show (fun cs : SubCtx × SymSub => (fun s : SymSub => (s.uid, s.nrp.isSome)) cs.2) =
-      (fun s : SymSub => (s.uid, s.nrp.isSome)) ∘ Prod.snd from rfl, ← List.map_map,
-      List.map_snd_zip (by omega)]
-  have h4 : ((ctxs.zip subs).all (fun cs => primaryOk cs.1 cs.2 && (!nrpChecked cs.1 cs.2 || nrpOk cs.1 cs.2))) = true := by
-    simp only [List.all_eq_true]
-    intro cs hcs
-    obtain ⟨a, _, c⟩ := hp cs hcs
-    simp [a, c]
-  simp only [hint, hn, h4, ← h3, decide_true, Bool.and_self]
-
-
-/-- what `nonRevProofsOk` says about one used entry -/
-theorem MeetsCL.nonRev_of {used : List Selected} (m : MeetsCL ctx pc r used) {s : Selected}
-    (hs : s ∈ used) {n : SymNrp} (hn : nrpOf r s = some n) :
-    ∃ cd d l, ctx.credDefs.lookup s.cred.credDefId = some cd ∧ registryFor ctx s = some (d, l) ∧
-      cd.revocable = true ∧ n.witOk = true ∧ d.regKey = n.regKey ∧ l.acc = some n.acc ∧
-      s.cred.sym.rev = some (n.regKey, n.idx) := by
-  have := m.nonRev
-  unfold nonRevProofsOk at this
-  simp only [List.all_eq_true] at this
-  have := this s hs
-  rw [hn] at this
-  simp only [] at this
-  split at this
-  · rename_i cd d l h1 h2
-    simp only [Bool.and_eq_true, beq_iff_eq] at this
-    obtain ⟨⟨⟨⟨a, b⟩, c⟩, d'⟩, e⟩ := this
-    exact ⟨cd, d, l, h1, h2, a, b, c, d', e⟩
-  · cases this
-
-/-- the CL checks of one (context, sub-proof) pair -/
-theorem pair_ok {used : List Selected} (m : MeetsCL ctx pc r used) {s : Selected}
-    (hs : s ∈ used) {sc : SchemaInfo} {cd : CredDefInfo}
-    (hsc : ctx.schemas.lookup s.cred.schemaId = some sc)
-    (hcd : ctx.credDefs.lookup s.cred.credDefId = some cd) (hkey : cd.key = s.cred.sym.key)
-    {sub : SymSub} {uid : Nat} (hadd : addSubProof pc r s holder session uid = some sub) :
-    primaryOk (subCtxOf ctx s sc cd) sub = true ∧
-    nrpChecked (subCtxOf ctx s sc cd) sub = sub.nrp.isSome ∧
-    nrpOk (subCtxOf ctx s sc cd) sub = true := by
-  obtain ⟨a, sc', ha, hsc', hsame⟩ := m.schema_of hs
-  rw [hsc] at hsc'; cases hsc'
-  obtain ⟨a', ainfos, pinfos, ha', _, _, _, hb⟩ := addSubProof_some hadd
-  rw [ha] at ha'; cases ha'
-  obtain ⟨h1, h2, _, _, _, h6, hrev, hpreds, hcred, hnrp, _, hintact, _⟩ := buildSub_some hb
-  refine ⟨?_, ?_, ?_⟩
-  · unfold primaryOk subCtxOf
-    simp only [Bool.and_eq_true, decide_eq_true_eq, List.all_eq_true, List.contains_iff_mem, hcred,
-      beq_iff_eq]
-    refine ⟨⟨⟨⟨hintact, hkey.symm⟩, ?_, ?_⟩, ?_⟩, ?_⟩
-    · intro x hx; exact h1 x ((hsame x).mp hx)
-    · intro x hx; exact (hsame x).mpr (h2 x hx)
-    · intro kv hkv
-      obtain ⟨_, _, _, hl⟩ := addSubProof_revealed hadd (n := kv.1) (v := kv.2) hkv
-      exact hl
-    · intro pr hpr
-      rw [hpreds] at hpr
-      obtain ⟨q, hq, e⟩ := List.mem_map.mp (mem_dedup.mp hpr)
-      rw [← e]; exact h6 q hq
-  · unfold nrpChecked subCtxOf
-    simp only [hnrp]
-    cases hn : nrpOf r s with
-    | none => rfl
-    | some n =>
-      obtain ⟨cd', d, l, hcd', hreg, hrevoc, _, _, hacc, _⟩ := m.nonRev_of hs hn
-      rw [hcd] at hcd'; cases hcd'
-      simp [hreg, hrevoc, hacc]
-  · unfold nrpOk subCtxOf
-    simp only [hnrp, hcred]
-    cases hn : nrpOf r s with
-    | none => rfl
-    | some n =>
-      obtain ⟨cd', d, l, hcd', hreg, _, hwit, hrk, hacc, hrev'⟩ := m.nonRev_of hs hn
-      simp [hreg, hwit, hrk, hacc, hrev']
 
 /-- check 10: the CL verification of the sub-proofs against the verifier's contexts succeeds -/
 theorem C04_check_cl (hm : meetsDemands ctx pc r sel sa = true)
@@ -867,5 +371,363 @@ theorem C04_legacy (hm : meetsDemands ctx pc r sel sa = true)
     C04_check_revealedValuesOk hm h, C04_check_unrevealedOk hm h, C04_check_predicatesOk h,
     C04_check_restrictions hm h, hl, hcs, C04_check_cl hm h hcs, Bool.not_true, Bool.false_eq_true,
     if_false]
+
+/-! ## W3C format -/
+section W3C
+open AnonModel.VerifierW3C
+
+variable {ctx : Ctx} {pc : PCtx} {r : Request} {sel : List SelectedW3C}
+  {holder session uid0 : Nat} {p : VerifierW3C.Presentation}
+
+/-- W3C check: every requested attribute name is held by a derived credential meeting the conditions -/
+theorem C04_check_w3c_attrs (hm : meetsDemandsW3C ctx pc r sel = true)
+    (h : createPresentationW3C pc r sel holder session uid0 = some p) :
+    r.attrs.all (fun kv => kv.2.allNames.all (fun n =>
+      requestedAttributeOk ctx r p n kv.2.restrictions kv.2.nonRevoked)) = true := by
+  have ch := createPresentationW3C_char h
+  have m := meetsW3C_of hm
+  simp only [List.all_eq_true]
+  intro kv hkv n hn
+  have hserved := m.attrsServed
+  unfold attrsServedW3C at hserved
+  simp only [List.all_eq_true, List.any_eq_true, Bool.and_eq_true, List.contains_iff_mem, keys] at hserved
+  obtain ⟨s, hs, hk, hcond⟩ := hserved kv hkv
+  obtain ⟨i, hi⟩ := List.mem_iff_getElem?.mp hs
+  obtain ⟨sub, subj, hc, hadd, hb⟩ := ch.cred_of hi
+  obtain ⟨rr, hrr, hrr1⟩ := List.mem_map.mp hk
+  obtain ⟨info, hinfo, hheld⟩ := buildCredentialAttributes_held hb hrr
+  have hl : r.attrs.lookup kv.1 = some kv.2 :=
+    lookup_of_mem ((noDup_iff _).mp m.attrsNodup) (k := kv.1) (b := kv.2) hkv
+  rw [hrr1, hl] at hinfo; cases hinfo
+  obtain ⟨av, hav⟩ := hheld n hn
+  obtain ⟨a, sc, _, hsc, _⟩ := m.cl.schema_of (mem_usedL hi)
+  have hsc' : ctx.schemas.lookup s.cred.schemaId = some sc := hsc
+  have hnorm := m.hasNorm_of hi hadd hsc' hav
+  unfold servedCondOkW3C at hcond
+  rw [hb] at hcond
+  simp only [] at hcond
+  rw [conditionsOk_sub ctx r s default sub] at hcond
+  unfold requestedAttributeOk
+  split
+  · rfl
+  · rw [heldBy_true (ch.schemas_supplied m)
+      ⟨credOfW3C s sub subj, List.mem_of_getElem? hc, sc, hsc', hnorm, hcond⟩]
+    rfl
+
+
+/-- W3C check: every requested predicate is proven by a derived credential meeting the conditions -/
+theorem C04_check_w3c_preds (hm : meetsDemandsW3C ctx pc r sel = true)
+    (h : createPresentationW3C pc r sel holder session uid0 = some p) :
+    r.preds.all (fun kv => requestedPredicateOk ctx r p kv.2) = true := by
+  have ch := createPresentationW3C_char h
+  have m := meetsW3C_of hm
+  simp only [List.all_eq_true]
+  intro kv hkv
+  have hserved := m.predsServed
+  unfold predsServedW3C at hserved
+  simp only [List.all_eq_true, List.any_eq_true, Bool.and_eq_true, List.contains_iff_mem] at hserved
+  obtain ⟨s, hs, hk, hcond⟩ := hserved kv hkv
+  obtain ⟨i, hi⟩ := List.mem_iff_getElem?.mp hs
+  obtain ⟨sub, subj, hc, hadd, hb⟩ := ch.cred_of hi
+  obtain ⟨q, av, b, hq, hav, hmark⟩ := buildCredentialAttributes_marks hb hk
+  have hl : r.preds.lookup kv.1 = some kv.2 :=
+    lookup_of_mem ((noDup_iff _).mp m.predsNodup) (k := kv.1) (b := kv.2) hkv
+  rw [hl] at hq; cases hq
+  unfold servedCondOkW3C at hcond
+  rw [hb] at hcond
+  simp only [] at hcond
+  rw [conditionsOk_sub ctx r s default sub] at hcond
+  unfold requestedPredicateOk
+  simp only [List.any_eq_true]
+  refine ⟨credOfW3C s sub subj, List.mem_of_getElem? hc, ?_⟩
+  have hgp : getPredicate (credOfW3C s sub subj) kv.2.name = some av.1 := by
+    unfold getPredicate subjLookup
+    show (match lookupNorm subj kv.2.name with
+      | some (a, .bool _) => some a
+      | _ => none) = some av.1
+    rw [lookupNorm_subj hav (buildCredentialAttributes_canon hb), hmark]
+    rfl
+  rw [hgp]
+  simp only [Bool.and_eq_true, List.any_eq_true, beq_iff_eq]
+  refine ⟨⟨normPred (predOfInfo kv.2), ?_, ?_⟩, hcond⟩
+  · obtain ⟨_, _, pinfos, _, _, _, hmp, hbs⟩ := addSubProof_some hadd
+    obtain ⟨_, _, _, _, _, _, _, hpreds, _⟩ := buildSub_some hbs
+    obtain ⟨q', hq', hlk⟩ := mapM_some_mem hmp (show kv.1 ∈ (w3cAsSelected s).preds from hk)
+    rw [hl] at hlk; cases hlk
+    show normPred (predOfInfo kv.2) ∈ sub.preds
+    rw [hpreds]
+    exact mem_dedup.mpr (List.mem_map_of_mem (f := normPred) (List.mem_map_of_mem (f := predOfInfo) hq'))
+  · refine ⟨⟨?_, rfl⟩, rfl⟩
+    show commonView (commonView kv.2.name) = commonView av.1
+    rw [commonView_idem]; exact (lookupNorm_some hav).2.symm
+
+/-- W3C check: issuer and verification method of each derived credential agree with its definition -/
+theorem C04_check_w3c_issuers (hm : meetsDemandsW3C ctx pc r sel = true)
+    (h : createPresentationW3C pc r sel holder session uid0 = some p) : issuersOk ctx p = true := by
+  have ch := createPresentationW3C_char h
+  have m := meetsW3C_of hm
+  unfold issuersOk
+  simp only [List.all_eq_true]
+  intro c hc
+  obtain ⟨i, hi⟩ := List.mem_iff_getElem?.mp hc
+  obtain ⟨s, sub, subj, hs, _, _, rfl⟩ := ch.cred i c hi
+  have := m.issuers
+  unfold issuersAgreeW3C at this
+  simp only [List.all_eq_true] at this
+  have := this s (List.mem_of_getElem? hs)
+  show (match ctx.credDefs.lookup s.cred.credDefId with
+    | none => false
+    | some cd => cd.issuerId == s.cred.issuer && s.cred.credDefId == s.cred.credDefId) = true
+  split at this
+  · rename_i cd hcd
+    simp only [hcd, this, beq_self_eq_true, Bool.and_self]
+  · cases this
+
+/-- W3C check: the subject of each derived credential is backed by its sub-proof -/
+theorem C04_check_w3c_subjects (hm : meetsDemandsW3C ctx pc r sel = true)
+    (h : createPresentationW3C pc r sel holder session uid0 = some p) : subjectsOk p = true := by
+  have ch := createPresentationW3C_char h
+  have m := meetsW3C_of hm
+  unfold subjectsOk
+  simp only [List.all_eq_true]
+  intro c hc kv hkv
+  obtain ⟨i, hi⟩ := List.mem_iff_getElem?.mp hc
+  obtain ⟨s, sub, subj, hs, hadd, hb, rfl⟩ := ch.cred i c hi
+  have hkv' : kv ∈ subj := hkv
+  rcases buildCredentialAttributes_justified hb kv hkv' with ⟨n, hmr, hl⟩ | ⟨hbool, ref, q, v, hp, hq, hl⟩
+  · obtain ⟨hmem, hcv⟩ := lookupNorm_some hl
+    obtain ⟨hnb, hsig⟩ := m.signed hs hmem
+    obtain ⟨val, hval, hln⟩ := addSubProof_lookupNorm hadd (s := w3cAsSelected s) hmr
+    have hval' : s.cred.sym.attrs.lookup (commonView n) = some val := hval
+    rw [← hcv, hsig] at hval'
+    cases hval'
+    have hrv : revealedValueOk kv.1 sub (Encode.encode kv.2.toStr) = true := by
+      unfold revealedValueOk
+      rw [lookupNorm_congr sub.revealed hcv, hln]
+      simp [Encode.C13_normalize_encode]
+    obtain ⟨k, v⟩ := kv
+    cases v with
+    | bool b => exact absurd rfl (hnb b)
+    | str x => exact hrv
+    | num x => exact hrv
+  · obtain ⟨k, v⟩ := kv
+    simp only at hbool
+    subst hbool
+    simp only [List.any_eq_true, beq_iff_eq]
+    refine ⟨normPred (predOfInfo q), ?_, ?_⟩
+    · obtain ⟨_, _, pinfos, _, _, _, hmp, hbs⟩ := addSubProof_some hadd
+      obtain ⟨_, _, _, _, _, _, _, hpreds, _⟩ := buildSub_some hbs
+      obtain ⟨q', hq', hlk⟩ := mapM_some_mem hmp (show ref ∈ (w3cAsSelected s).preds from hp)
+      rw [hq] at hlk; cases hlk
+      show normPred (predOfInfo q) ∈ sub.preds
+      rw [hpreds]
+      exact mem_dedup.mpr (List.mem_map_of_mem (f := normPred) (List.mem_map_of_mem (f := predOfInfo) hq'))
+    · show commonView (commonView q.name) = commonView k
+      rw [commonView_idem]; exact (lookupNorm_some hl).2.symm
+
+/-- W3C check: `add_sub_proof` succeeds for every derived credential -/
+theorem C04_check_w3c_subCtxs (hm : meetsDemandsW3C ctx pc r sel = true)
+    (h : createPresentationW3C pc r sel holder session uid0 = some p) :
+    ∃ cs, p.creds.mapM (VerifierW3C.subCtxFor ctx) = some cs ∧
+      ∀ (i : Nat) (c : SubCtx), cs[i]? = some c → ∃ s sub subj sc cd, (usedOfW3C sel)[i]? = some s ∧
+        p.creds[i]? = some (credOfW3C s sub subj) ∧
+        addSubProof pc r (w3cAsSelected s) holder session (uid0 + i) = some sub ∧
+        ctx.schemas.lookup s.cred.schemaId = some sc ∧
+        ctx.credDefs.lookup s.cred.credDefId = some cd ∧ cd.key = s.cred.sym.key ∧
+        c = subCtxOf ctx (w3cAsSelected s) sc cd := by
+  have ch := createPresentationW3C_char h
+  have m := meetsW3C_of hm
+  have hone : ∀ (i : Nat) (c : Cred), p.creds[i]? = some c → ∃ s sub subj sc cd,
+      (usedOfW3C sel)[i]? = some s ∧ c = credOfW3C s sub subj ∧
+      addSubProof pc r (w3cAsSelected s) holder session (uid0 + i) = some sub ∧
+      ctx.schemas.lookup s.cred.schemaId = some sc ∧
+      ctx.credDefs.lookup s.cred.credDefId = some cd ∧ cd.key = s.cred.sym.key ∧
+      VerifierW3C.subCtxFor ctx c = some (subCtxOf ctx (w3cAsSelected s) sc cd) := by
+    intro i c hi
+    obtain ⟨s, sub, subj, hs, hadd, hb, rfl⟩ := ch.cred i c hi
+    obtain ⟨a, sc, _, hsc, _⟩ := m.cl.schema_of (mem_usedL hs)
+    obtain ⟨cd, hcd, hkey⟩ := m.cl.credDef_of (mem_usedL hs)
+    have hsc' : ctx.schemas.lookup s.cred.schemaId = some sc := hsc
+    have hcd' : ctx.credDefs.lookup s.cred.credDefId = some cd := hcd
+    refine ⟨s, sub, subj, sc, cd, hs, rfl, hadd, hsc', hcd', hkey, ?_⟩
+    have hreg := m.cl.registry_of (mem_usedL hs)
+    have hreq := addSubProofRequestOk_of m.cl (mem_usedL hs) hadd hsc (cd := cd)
+    unfold VerifierW3C.subCtxFor
+    show (match ctx.schemas.lookup s.cred.schemaId, ctx.credDefs.lookup s.cred.credDefId with
+      | some sc, some cd =>
+        match revocationRegistry ctx (identOf (w3cAsSelected s)) with
+        | none => none
+        | some (regKey, acc) =>
+          let sctx : SubCtx := { schemaAttrs := sc.attrNames.map Names.commonView, key := cd.key,
+                                 hasRevKey := cd.revocable, regKey := regKey, acc := acc }
+          if addSubProofRequestOk sctx sub then some sctx else none
+      | _, _ => none) = _
+    rw [hsc', hcd', hreg]
+    simp only []
+    unfold subCtxOf at hreq ⊢
+    rw [if_pos hreq]
+  obtain ⟨cs, hcs⟩ := mapM_exists_of (l := p.creds) (f := VerifierW3C.subCtxFor ctx) (fun c hc => by
+    obtain ⟨i, hi⟩ := List.mem_iff_getElem?.mp hc
+    obtain ⟨s, sub, subj, sc, cd, _, _, _, _, _, _, hf⟩ := hone i c hi
+    exact ⟨_, hf⟩)
+  refine ⟨cs, hcs, ?_⟩
+  intro i c hc
+  obtain ⟨cr, hcr, hf⟩ := mapM_some_getElem?_inv hcs hc
+  obtain ⟨s, sub, subj, sc, cd, hs, rfl, hadd, hsc, hcd, hkey, hf'⟩ := hone i cr hcr
+  rw [hf'] at hf
+  exact ⟨s, sub, subj, sc, cd, hs, hcr, hadd, hsc, hcd, hkey, (Option.some.inj hf).symm⟩
+
+/-- W3C check: the CL verification succeeds -/
+theorem C04_check_w3c_cl (hm : meetsDemandsW3C ctx pc r sel = true)
+    (h : createPresentationW3C pc r sel holder session uid0 = some p) {cs : List SubCtx}
+    (hcs : p.creds.mapM (VerifierW3C.subCtxFor ctx) = some cs) :
+    IdealCL.verify cs (p.creds.map (·.sub)) p.agg r.nonce true = some true := by
+  have ch := createPresentationW3C_char h
+  have m := meetsW3C_of hm
+  obtain ⟨cs', hcs', hchar⟩ := C04_check_w3c_subCtxs hm h
+  rw [hcs] at hcs'; cases hcs'
+  have hsubs : ∀ sub ∈ p.creds.map (·.sub), ∃ (i : Nat) (s : SelectedW3C),
+      addSubProof pc r (w3cAsSelected s) holder session (uid0 + i) = some sub := by
+    intro sub hsub
+    obtain ⟨c, hc, rfl⟩ := List.mem_map.mp hsub
+    obtain ⟨i, hi⟩ := List.mem_iff_getElem?.mp hc
+    obtain ⟨s, sub, subj, _, hadd, _, rfl⟩ := ch.cred i c hi
+    exact ⟨i, s, hadd⟩
+  apply verify_true
+  · rw [mapM_some_length hcs, List.length_map]
+  · intro sub hsub
+    obtain ⟨i, s, hadd⟩ := hsubs sub hsub
+    obtain ⟨hnr, hnp⟩ := addSubProof_normal hadd
+    unfold paramsConsistent
+    simp only [Bool.and_eq_true, List.all_eq_true, beq_iff_eq]
+    exact ⟨hnr, hnp⟩
+  · intro m' s1 hs1 s2 hs2 e
+    have hms : ∀ sub ∈ p.creds.map (·.sub), sub.ms = (holder, session) := by
+      intro sub hsub
+      obtain ⟨i, s, hadd⟩ := hsubs sub hsub
+      obtain ⟨_, _, _, _, _, _, _, hb⟩ := addSubProof_some hadd
+      exact (buildSub_some hb).2.2.2.2.2.2.2.2.2.2.1
+    rw [← e, hms s1 hs1, hms s2 hs2]
+  · rw [ch.agg]
+  · rw [ch.agg]
+  · rw [ch.agg, List.map_map]; rfl
+  · intro pr hpr
+    obtain ⟨i, hi⟩ := List.mem_iff_getElem?.mp hpr
+    obtain ⟨hc, hsub⟩ := List.getElem?_zip_eq_some.mp hi
+    obtain ⟨s, sub, subj, sc, cd, hs, hcr, hadd, hsc, hcd, hkey, hceq⟩ := hchar i pr.1 hc
+    rw [List.getElem?_map, hcr] at hsub
+    have hsub' : pr.2 = sub := (Option.some.inj hsub).symm
+    rw [hceq, hsub']
+    exact pair_ok m.cl (mem_usedL hs) hsc hcd hkey hadd
+
+/-- **C04 (W3C format): honest flows verify.** If the verifier's context, the prover's context, the
+request and the selection meet `meetsDemandsW3C` — same schemas, the credential definitions that signed
+the credentials with the credentials' issuers, subjects that carry what was signed, every requested
+attribute and predicate referent served by an entry whose *derived* credential meets the referent's
+restriction (evaluated on the derived subject: known finding F19) and non-revocation interval, good
+revocation states for the registries and status lists the verifier supplies — then any presentation the
+W3C `create_presentation` builds is accepted by the W3C `verify_presentation`: the verdict is `Ok(true)`. -/
+theorem C04_w3c (hm : meetsDemandsW3C ctx pc r sel = true)
+    (h : createPresentationW3C pc r sel holder session uid0 = some p) :
+    verifyW3C ctx r p = .ok true := by
+  have ch := createPresentationW3C_char h
+  obtain ⟨cs, hcs, _⟩ := C04_check_w3c_subCtxs hm h
+  have hl : listsOk ctx = true := (meetsW3C_of hm).lists
+  have hproof : p.creds.all (·.proofOk) = true := by
+    simp only [List.all_eq_true]
+    intro c hc
+    obtain ⟨i, hi⟩ := List.mem_iff_getElem?.mp hc
+    obtain ⟨s, sub, subj, _, _, _, rfl⟩ := ch.cred i c hi
+    rfl
+  have hreq : requestDataOk ctx r p = true := by
+    unfold requestDataOk
+    rw [C04_check_w3c_attrs hm h, C04_check_w3c_preds hm h, C04_check_w3c_issuers hm h]
+    rfl
+  unfold verifyW3C
+  simp only [ch.validateOk, hproof, hreq, C04_check_w3c_subjects hm h, ch.presProofOk, hl, hcs,
+    C04_check_w3c_cl hm h hcs, Bool.not_true, Bool.false_eq_true, if_false]
+
+end W3C
+
+/-! ## non-vacuity: a small concrete world
+
+One credential (schema attributes spelled differently by prover, verifier, credential and request:
+`"a"`/`"A"`/`" a"`, `"c D"`/`"Cd"`/`"C d"`), values `a ↦ 25`, `b ↦ 7` (carried with the non-canonical
+encoding `"007"`), `cd ↦ 3`, issued with revocation; an unused credential passed along. Request: a
+revealed single (`B`, restricted by `cred_def_id`), an unrevealed single (`" a"`), a revealed group
+(`b`, `c D`, `b` again; restricted by the revealed value of `b`; local non-revocation interval
+`[lo, ∞)`), a self-attested attribute (legacy only), the predicate `A ≥ 18` (restricted by `schema_id`),
+request-wide interval `(-∞, 100]`; timestamp 50 with a good revocation state. -/
+section Examples
+open AnonModel.VerifierW3C AnonModel.Query
+
+private def wSym : SymCred :=
+  { key := 1, attrs := [("a", "25"), ("b", "7"), ("cd", "3")], holder := 5, rev := some (9, 4) }
+private def wCred : HeldCred :=
+  { schemaId := "s1", credDefId := "cd1", revRegId := some "rr1",
+    values := [("A", ("25", "25")), ("b", ("7", "007")), ("C d", ("3", "3"))], sym := wSym }
+private def wAttrs (lo : Nat) : List (String × AttrInfo) :=
+  [("r1", { name := some "B", names := none, restrictions := some (.eq "cred_def_id" "cd1"), nonRevoked := none }),
+   ("r2", { name := some " a", names := none, restrictions := none, nonRevoked := none }),
+   ("g1", { name := none, names := some ["b", "c D", "b"], restrictions := some (.eq "attr::b::value" "7"),
+            nonRevoked := some ⟨some lo, none⟩ })]
+private def wPreds : List (String × PredInfo) :=
+  [("p1", { name := "A", ty := "GE", value := 18, restrictions := some (.eq "schema_id" "s1"), nonRevoked := none })]
+/-- legacy request: additionally a self-attested attribute -/
+private def wReq (lo : Nat) : Request :=
+  { nonce := "n", preds := wPreds, nonRevoked := some ⟨none, some 100⟩,
+    attrs := wAttrs lo ++ [("sa1", { name := some "x", names := none, restrictions := none, nonRevoked := none })] }
+private def wReqW (lo : Nat) : Request :=
+  { nonce := "n", preds := wPreds, nonRevoked := some ⟨none, some 100⟩, attrs := wAttrs lo }
+private def wState : SymNrp := { regKey := 9, idx := 4, acc := 77, witOk := true }
+private def wSel : List Selected :=
+  [{ cred := { wCred with values := [] }, timestamp := none, revState := none, attrs := [], preds := [] },
+   { cred := wCred, timestamp := some 50, revState := some wState,
+     attrs := [("r1", true), ("r2", false), ("g1", true)], preds := ["p1"] }]
+private def wSa : List (String × String) := [("sa1", "hello")]
+private def wPc : PCtx := { schemas := [("s1", ["a", "B", "c D"])], credDefs := ["cd1"] }
+private def wCtx (key : Nat) : Ctx :=
+  { schemas := [("s1", { name := "sch", version := "1.0", issuerId := "iss", attrNames := ["A", "b", "Cd"] })],
+    credDefs := [("cd1", { issuerId := "iss", key := key, revocable := true })],
+    revRegDefs := some [("rr1", { regKey := 9 })],
+    lists := some [{ regId := some "rr1", ts := some 50, acc := some 77 }],
+    override := none }
+private def wHeldW : HeldW3C :=
+  { issuer := "iss", schemaId := "s1", credDefId := "cd1", revRegId := some "rr1",
+    subject := [("A", .num 25), ("b", .str "7"), ("C d", .str "3")], sym := wSym }
+private def wSelW : List SelectedW3C :=
+  [{ cred := wHeldW, timestamp := none, revState := none, attrs := [], preds := [] },
+   { cred := wHeldW, timestamp := some 50, revState := some wState,
+     attrs := [("r1", true), ("r2", false), ("g1", true)], preds := ["p1"] }]
+
+-- the hypotheses of `C04_legacy` hold of this world, a presentation is built, and it verifies
+set_option maxRecDepth 100000 in
+example : meetsDemands (wCtx 1) wPc (wReq 10) wSel wSa = true := by decide
+set_option maxRecDepth 100000 in
+example : (createPresentation wPc (wReq 10) wSel wSa 5 1 0).isSome = true := by decide
+set_option maxRecDepth 100000 in
+example : (createPresentation wPc (wReq 10) wSel wSa 5 1 0).map (verifyLegacy (wCtx 1) (wReq 10)) =
+    some (.ok true) := by decide
+-- the hypotheses are not idle: a verifier holding another issuer key …
+set_option maxRecDepth 100000 in
+example : (meetsConjuncts (wCtx 2) wPc (wReq 10) wSel wSa).filter (fun c => !c.2) = [("credDefsAgree", false)] ∧
+    (createPresentation wPc (wReq 10) wSel wSa 5 1 0).map (verifyLegacy (wCtx 2) (wReq 10)) = some (.ok false) := by
+  decide
+-- … or a timestamp before the local interval of the revealed group: the same presentation is refused
+set_option maxRecDepth 100000 in
+example : (meetsConjuncts (wCtx 1) wPc (wReq 60) wSel wSa).filter (fun c => !c.2) = [("intervalsMet", false)] ∧
+    (createPresentation wPc (wReq 60) wSel wSa 5 1 0).map (verifyLegacy (wCtx 1) (wReq 60)) = some .err := by
+  decide
+-- W3C format
+set_option maxRecDepth 100000 in
+example : meetsDemandsW3C (wCtx 1) wPc (wReqW 10) wSelW = true := by decide
+set_option maxRecDepth 100000 in
+example : (createPresentationW3C wPc (wReqW 10) wSelW 5 1 0).map (verifyW3C (wCtx 1) (wReqW 10)) =
+    some (.ok true) := by decide
+set_option maxRecDepth 100000 in
+example : (meetsConjunctsW3C (wCtx 1) wPc (wReqW 60) wSelW).filter (fun c => !c.2) = [("attrsServed", false)] ∧
+    (createPresentationW3C wPc (wReqW 60) wSelW 5 1 0).map (verifyW3C (wCtx 1) (wReqW 60)) = some .err := by
+  decide
+end Examples
 
 end AnonModel.Prover
